@@ -379,7 +379,8 @@ def c14(tier='quick', seed=0):
                'operators, brackets, digits, dots, quotes, placeholders) against credentials whose values take every '
                'JSON type at every path position; only documented exceptions may escape and unevaluable checks deny')
     kinds = ['a', 'a.b', 'a.b.c', 'class', '1+', '', 'a.0', '[', '{', 'None', 'True', '1', "'x'", '"x"', 'lambda', 'a..b',
-             '.', 'a.', '0x', '1e', 'not', '-', '(1', '1)', '[1]', 'roles', 'roles.x', 'a.b.c.d', 'import', '%', 'é']
+             '.', 'a.', '0x', '1e', 'not', '-', '(1', '1)', '[1]', 'roles', 'roles.x', 'a.b.c.d', 'import', '%', 'é', '{[]}', '{{}:1}', '{1:[]}', '()', '{}', 'b"x"', '...', '1j', '-1', '+1', '- 1', '1_0',
+             '0o7', '1,', '*a', 'a,b', "'a''b'", '"""x"""', 'r"x"', 'f"x"', '1if', 'set()', '{1}', '[{}]', '[[]]']
     matches = ['x', '1', 'True', '%(t)s', '%(missing)s', 'None', "['x']"]
     jsons = [None, True, 0, 1.5, 'str', [], ['x'], [['x']], [{'b': 'x'}], {}, {'b': 'x'}, {'b': ['x', {'c': 'x'}]},
              {'b': {'c': {'d': 'x'}}}, [None], [[], {}]]
